@@ -299,6 +299,75 @@ def mut_key_after_loop(src):
     )
 
 
+# ---- twin audit (same-typed section variables written for each other, swapped argument order / tuple components)
+def mut_block_init_null(src):
+    """(t1) _block_level_constraints starts from the null set"""
+    return replace_once(
+        src,
+        "        for key in analysis_keys:\n            self._block_contexts[key][block] = self._universal_set(key)\n\n        for ins in block.instructions:\n",
+        "        for key in analysis_keys:\n            self._block_contexts[key][block] = self._null_set(key)\n\n        for ins in block.instructions:\n",
+    )
+
+
+def mut_return_zero_universal(src):
+    """(t2) return 0 stores the universal set"""
+    return replace_once(
+        src,
+        "                if is_int and value == 0:\n                    for key in analysis_keys:\n                        self._block_contexts[key][block] = self._null_set(key)\n",
+        "                if is_int and value == 0:\n                    for key in analysis_keys:\n                        self._block_contexts[key][block] = self._universal_set(key)\n",
+    )
+
+
+def mut_return_union(src):
+    """(t3) return: union instead of intersection"""
+    return replace_once(
+        src,
+        "                    self._block_contexts[key][block] = self._intersection(\n                        key, present_values, true_values\n",
+        "                    self._block_contexts[key][block] = self._union(\n                        key, present_values, true_values\n",
+    )
+
+
+def mut_assert_args(src):
+    """(a1) assert: the two set arguments of _intersection swapped"""
+    return replace_once(
+        src,
+        "                    self._block_contexts[key][block] = self._intersection(\n                        key, present_values, asserted_values\n",
+        "                    self._block_contexts[key][block] = self._intersection(\n                        key, asserted_values, present_values\n",
+    )
+
+
+def mut_return_args(src):
+    """(a2) return: the two set arguments of _intersection swapped"""
+    return replace_once(
+        src,
+        "                    self._block_contexts[key][block] = self._intersection(\n                        key, present_values, true_values\n",
+        "                    self._block_contexts[key][block] = self._intersection(\n                        key, true_values, present_values\n",
+    )
+
+
+def mut_exit_pair_swapped(src):
+    """(a3) bz / bnz: the pair of _get_asserted unpacked as (false values, true values)"""
+    return replace_once(
+        src,
+        "                true_values, false_values = self._get_asserted(key, exit_ins_arg)\n",
+        "                false_values, true_values = self._get_asserted(key, exit_ins_arg)\n",
+    )
+
+
+def mut_gt_args(src):
+    """(a4) operands of `>` swapped in the "target is the next line" test"""
+    return replace_once(src, "                    if len(block.exit_instr.next) > 1:\n", "                    if 1 > len(block.exit_instr.next):\n")
+
+
+def mut_is_int_pair_swapped(src):
+    """(a5) the pair of is_int_push_ins unpacked the other way round"""
+    return replace_once(
+        src,
+        "                is_int, value = is_int_push_ins(return_ins_arg.instruction)\n",
+        "                value, is_int = is_int_push_ins(return_ins_arg.instruction)\n",
+    )
+
+
 MUTATIONS = [
     ("(i) default = next[0], jump = next[-1] always", GEN, mut_always_two),
     ("(ii) bz: values of the two assignments swapped", GEN, mut_bz_swap_values),
@@ -326,6 +395,14 @@ MUTATIONS = [
     ("(s6) cell of another block written", GEN, mut_other_cell),
     ("(s7) get_stack_value_for_ins edited", SB, mut_stack_value),
     ("(s8) `key` used outside its loop", GEN, mut_key_after_loop),
+    ("(t1) TWIN block constraint starts from the null set", GEN, mut_block_init_null),
+    ("(t2) TWIN return 0: universal set", GEN, mut_return_zero_universal),
+    ("(t3) TWIN return: union for intersection", GEN, mut_return_union),
+    ("(a1) ARGS assert: _intersection(key, y, x)", GEN, mut_assert_args),
+    ("(a2) ARGS return: _intersection(key, y, x)", GEN, mut_return_args),
+    ("(a3) PAIR bz/bnz: (false, true) = _get_asserted(..)", GEN, mut_exit_pair_swapped),
+    ("(a4) ARGS `1 > len(..)` for `len(..) > 1`", GEN, mut_gt_args),
+    ("(a5) PAIR value, is_int = is_int_push_ins(..)", GEN, mut_is_int_pair_swapped),
 ]
 REQUIRED = 5  # the first five rows are the mutations required by the task
 
